@@ -104,7 +104,8 @@ fn main() {
             results.sort_by_key(|x| x.0);
             let mut total = report::Outcome::new();
             let mut meta: Option<report::CheckMeta> = None;
-            for (_, r) in results {
+            let mut per_variant: Vec<(String, report::Outcome)> = bins.iter().map(|b| (b.0.clone(), report::Outcome::new())).collect();
+            for (job, r) in results {
                 match r {
                     Ok(s) => {
                         let v: serde_json::Value = serde_json::from_str(&s).expect("shard output");
@@ -112,6 +113,8 @@ fn main() {
                             meta = serde_json::from_value(v["meta"].clone()).ok();
                         }
                         let o: report::Outcome = serde_json::from_value(v["outcome"].clone()).expect("shard outcome");
+                        let o2: report::Outcome = serde_json::from_value(v["outcome"].clone()).expect("shard outcome");
+                        per_variant[job / nshards].1.merge(o2);
                         total.merge(o);
                     }
                     Err(e) => {
@@ -123,6 +126,15 @@ fn main() {
             }
             let _ = std::fs::remove_dir_all(&tmp);
             let meta = meta.expect("no shard produced the check's metadata");
+            if id == "C19" {
+                let pv: Vec<(String, std::collections::BTreeMap<String, serde_json::Value>)> =
+                    per_variant.iter().map(|(n, o)| (if n.is_empty() { "default".to_string() } else { n.clone() }, o.cov.extra.clone())).collect();
+                // the merged extras are sums over variants: drop them, keep the per-variant table
+                for k in ["digest_writer_model_states", "digest_reader_transitions", "digest_stream_evaluations", "writer_model_states"] {
+                    total.cov.extra.remove(k);
+                }
+                props::builds::post_merge(&pv, &mut total);
+            }
             let code = report::finish(&meta, &tier, seed, total, t0.elapsed().as_secs_f64(), &verif_dir);
             std::process::exit(code);
         }
